@@ -46,11 +46,11 @@ class C10(PropBase):
     def init_op(self, rng):
         role = "s" if rng.random() < 0.8 else "c"
         return {"op": "init", "sessions": [{"name": "x", "role": role}], "observe_pending": True, "follow": True,
-                "lazy_drain": rng.random() < 0.7, "big": rng.choice([0.03, 0.15]), "bad_text": rng.choice([0.0, 0.0, 0.04]), "style": policy.wire_style(rng)}
+                "lazy_drain": rng.random() < 0.7, "first_id": rng.choice([1, 1, 1, 120, 250, 32760, 65530, 2 ** 31 - 40, 2 ** 32 - 5]), "big": rng.choice([0.03, 0.15]), "bad_text": rng.choice([0.0, 0.0, 0.04]), "style": policy.wire_style(rng)}
 
     def make(self, init):
         st = St(World(init))
-        st.x = {"nontrivial": False, "cells": set(), "next_req": 1, "last_final": None}
+        st.x = {"nontrivial": False, "cells": set(), "next_req": init.get("first_id", 1), "last_final": None}
         return st
 
     # ------------------------------------------------------------------ policy
